@@ -126,6 +126,45 @@ def run(ctx):
                       restorekeys=["PEd25519", "P1024", "P2048", "P1024-N", "PEd25519-S", "PEd25519-M", "P1024-equal", "PEd25519-deepcopy"])
     traces += t
     silent += [("shipped",) + x for x in s]
+    # the fingerprint comparison itself: state whose hashed_params differs from the right value in one character (every
+    # position), by a permutation of aligned chunks, or by the same bit flipped in two chunks (a comparison that sums or
+    # XORs words, or looks at a prefix, lets these through) must be refused like any other parameter mismatch
+    import json as _json
+    for ps, g, cls in [("Pi23", "i23", "A"), ("PEd25519", "Ed25519", "S"), ("P1024", "I1024", "B")]:
+        r = Run("fingerprint-mutations/%s/%s" % (g, cls), uni)
+        r.new("o", cls, ps, b"pw", b"A", b"B" if cls != "S" else b"")
+        r.start("o", mp.stream_for(g, 3))
+        blob = r.serialize("o")
+        f = _json.loads(blob.decode("ascii"))
+        h = f["hashed_params"]
+        muts = []
+        for i in range(len(h)):
+            muts.append(h[:i] + ("0" if h[i] != "0" else "1") + h[i + 1:])
+        for size in (1, 2, 4, 8, 16, 32):
+            chunks = [h[i:i + size] for i in range(0, len(h), size)]
+            for a in range(min(len(chunks), 6)):
+                for b in range(a + 1, min(len(chunks), 8)):
+                    if chunks[a] != chunks[b]:
+                        c2 = list(chunks)
+                        c2[a], c2[b] = c2[b], c2[a]
+                        muts.append("".join(c2))
+            for a, b in ((0, 1), (0, len(chunks) - 1), (1, 2)):           # the same hex digit XOR 1 / XOR 8 in two chunks
+                if b >= len(chunks) or a == b:
+                    continue
+                for bit in (1, 8):
+                    c2 = list(chunks)
+                    for k in (a, b):
+                        c2[k] = "%x" % (int(c2[k][0], 16) ^ bit) + c2[k][1:]
+                    muts.append("".join(c2))
+        muts += [h[:-2], h + "00", h[2:] + h[:2], h[::-1], "00" * (len(h) // 2), ""]
+        n = 0
+        for m in dict.fromkeys(muts):
+            if m == h:
+                continue
+            n += 1
+            r.t.restore_raw(cls, ps, _json.dumps(dict(f, hashed_params=m)).encode("ascii"))
+        ctx.cov["fingerprint_mutations"] = ctx.cov.get("fingerprint_mutations", 0) + n
+        traces.append(r.json())
     # many short-lived parameter sets: each is created, used and DROPPED (so that object identities are recycled); state
     # saved under the previous set must be refused under the next one, state saved under a set must restore under it
     sp = load_repo()
